@@ -124,15 +124,26 @@ func Link(g *Graph) *Obj {
 	prob := func(rule, key string, n *Node, format string, a ...interface{}) {
 		o.Problems = append(o.Problems, Problem{rule, key, n, fmt.Sprintf(format, a...)})
 	}
-	// jump records annotate the next EMIT, which must be a JumpIf
+	// jump records annotate the next EMIT (or, when the record is stored after the emission it describes, the previous
+	// one), which must be a JumpIf
+	preds := map[*Node][]*Node{}
+	for _, n := range g.Nodes {
+		for _, s := range n.Succ {
+			preds[s] = append(preds[s], n)
+		}
+	}
 	for _, j := range g.Nodes {
 		if j.Kind != EvJrec {
 			continue
 		}
-		// strictly the next event must be the EMIT
-		for _, s := range j.Succ {
+		around := j.Succ
+		if j.Lag == 1 {
+			around = preds[j]
+		}
+		// strictly the neighbouring event must be the EMIT
+		for _, s := range around {
 			if s.Kind != EvEmit || s.Lit == nil || s.Lit.Type != "JumpIf" {
-				prob("E1.label", j.Fn.Name()+"/record-then-jump", j, "a jump record is not immediately followed by the emission of a conditional jump (the record's index would name another instruction)")
+				prob("E1.label", j.Fn.Name()+"/record-then-jump", j, "a jump record is not immediately followed (or preceded) by the emission of a conditional jump (the record's index would name another instruction)")
 				continue
 			}
 			if s.Jrec != nil && s.Jrec != j {
@@ -140,8 +151,8 @@ func Link(g *Graph) *Obj {
 			}
 			s.Jrec = j
 		}
-		if len(j.Succ) == 0 {
-			prob("E1.label", j.Fn.Name()+"/record-then-jump", j, "a jump record is not followed by an emission")
+		if len(around) == 0 {
+			prob("E1.label", j.Fn.Name()+"/record-then-jump", j, "a jump record does not belong to an emission")
 		}
 	}
 	// resolve labels
@@ -313,6 +324,7 @@ type Item struct {
 	Obj     *Obj     // obj / star: the object graph (a group fragment or a single-purpose object)
 	Nilable bool     // star: each iteration may also contribute nothing
 	Syms    []string // names of the slice variables (SSA values) this item is part of
+	fr      *frame   // calling context the item was built in
 }
 
 // Whole is the object-level graph of a complete program (one variant of the policy-level predicates).
